@@ -90,6 +90,7 @@ inductive Ev
   | ldTokens (f v : Nat)
   | casTokens (f found exp new : Nat) (ok : Bool)
   | faddTokens (f old : Nat)
+  | peekHead (f : Nat) (h : H)              -- harness op `s`: polls `head` before raise_strict
   deriving Repr, DecidableEq, Inhabited
 
 /-- harness-level pc (which harness operation the fiber is in) -/
@@ -304,6 +305,9 @@ def step (s : St) : Ev → Option St
     | .pubCalled => if old = s.tokens then some { s with tokens := old + 1, tk := upd s.tk f .published } else none
     | _ => none
 
+  | .peekHead f h =>
+    if s.pc f = .idle ∧ s.tk f = .idle ∧ h = s.head then some s else none
+
 def sys (nodeOf : Nat → Nat) : Sys St Ev := { init := init nodeOf, step := step }
 
 /-! ### log decoding -/
@@ -378,6 +382,7 @@ def ofRaw (r : RawEv) : Option (Option Ev) :=
   | "note", ["ret", "strict"] => some (some (.retRaise f true true))
   | "note", _ => some none
   | "ld", ["tokens", v, _] => v.toNat?.map (fun v => some (.ldTokens f v))
+  | "ld", ["ms+8/8", h, _] => (hOf h).map (fun h => some (.peekHead f h))
   | "cas", ["tokens", found, exp, new, ok, _] => do
       let a ← found.toNat?; let b ← exp.toNat?; let c ← new.toNat?
       pure (some (.casTokens f a b c (ok = "1")))
